@@ -19,6 +19,9 @@
 //!   scale.chk.raw.load bits order len idx   scale.chk.raw.store bits order len idx
 //!   scale.chk.sub pw ph x y w h
 //!   scale.chk.text fi cw ch sp bl lhk lhv baseline align x y nlines nchars
+//!   + the kernels of m_scale_chk2.rs (triangles, rounded rectangles, sectors / arcs, scanlines, glyphs)
+#[path = "m_scale_chk2.rs"]
+mod more;
 use crate::common::*;
 use embedded_graphics::{
     geometry::{AnchorPoint, AnchorX, AnchorY},
@@ -695,6 +698,8 @@ pub fn generate(pid: &str, tier: Tier, rng: &mut Rng, emit: &mut dyn FnMut(Strin
         let nchars = *rng.pick(&[0i64, 1, 2, 7, 40, 256]);
         emit(format!("scale.chk.text {} {} {} {} {} {} {} {} {}", metrics(fi), lhk, lhv, rng.below(4), rng.below(3), x, y, nlines, nchars));
     }
+
+    more::generate(tier, rng, emit);
 }
 
 // ---------------------------------------------------------------------------------------------
@@ -986,7 +991,10 @@ pub fn execute(op: &str, ctx: &mut Ctx) -> String {
             let lh_ds = lhk == 0 || (lhk == 1 && lhv <= 1024) || (lhk == 2 && lhv <= 400);
             (guard(|| fmt_rect(&Text::with_text_style(&s, pos, cs, ts).bounding_box())), lds(pos) && lh_ds && nlines <= 64 && nchars <= 256)
         }
-        other => panic!("unknown scale.chk kernel {}", other),
+        other => match more::execute(other, &mut t) {
+            Some(r) => r,
+            None => panic!("unknown scale.chk kernel {}", other),
+        },
     };
     if res == "panic" {
         ctx.count("chk:result-panic");
